@@ -237,6 +237,12 @@ func main() {
 			}
 		}
 	}
+	// finding region 6 (F-C13-6), directed: the strip prefix matches only after decoding
+	for _, tp := range []string{"$path", "/$path", "/bbb/$path"} {
+		for _, w := range []string{"/%61bc/a%2Fb", "/%61bc/x", "/a%62c/a%20b", "/%61bc", "/%61bc/%61", "/ab%63/p;v=1/a%2Bb"} {
+			build("build-strip-decoded-only", "https://$host"+tp, "/abc", []string{"", "/pre"}[len(w)%2], "foo.com", w, "")
+		}
+	}
 	for i := 0; i < run.Scale(700, 20000); i++ {
 		strip := strips[r.Intn(len(strips))]
 		lead := ""
@@ -414,7 +420,7 @@ func main() {
 			run.Violation(run.NextID(), fmt.Sprintf("ServeHTTP on a redirect table ended in an unclassifiable way (status %d, panic %v)", w.Code, pval), sample)
 			return
 		}
-		run.Add(class, vh.App("CServe", vh.List(cands), coqReq(q), resp, vh.Nat(tr.n)), sample)
+		run.Add(class, vh.App("CServe", vh.List(cands), vh.HxS(q.wire), coqReq(q), resp, vh.Nat(tr.n)), sample)
 	}
 	for i := 0; i < run.Scale(500, 12000); i++ {
 		serveOne("serve-random-table")
@@ -589,7 +595,7 @@ func main() {
 				run.Violation(run.NextID(), fmt.Sprintf("request to a redirect route answered %d without Location; transport calls %d, connections to the template's host %d", resp.StatusCode, hits, cont), sample)
 				continue
 			}
-			run.Add("serve-headers-socket", vh.App("CServeH", vh.List(coqH), vh.List(cands), vh.HxS(host), vh.HxS(q.u.Path), vh.HxS(q.u.RawPath), vh.HxS(q.u.RawQuery),
+			run.Add("serve-headers-socket", vh.App("CServeH", vh.List(coqH), vh.List(cands), vh.HxS(host), vh.HxS(q.wire), vh.HxS(q.u.Path), vh.HxS(q.u.RawPath), vh.HxS(q.u.RawQuery),
 				"false", impl, vh.Nat(hits), vh.Nat(cont)), sample)
 		}
 		srv.Close()
@@ -716,7 +722,7 @@ func main() {
 				bad = true
 				break
 			}
-			steps = append(steps, "("+coqReq(q)+", "+vh.List(cands)+", "+resp+", "+vh.Nat(hits)+")")
+			steps = append(steps, "("+coqReq(q)+", "+vh.HxS(q.wire)+", "+vh.List(cands)+", "+resp+", "+vh.Nat(hits)+")")
 		}
 		if bad || len(steps) == 0 {
 			continue
@@ -760,85 +766,196 @@ func main() {
 		}
 	}
 
-	// ---------- 4. two simultaneous requests, forced schedule ----------
-	for i := 0; i < run.Scale(24, 400); i++ {
-		tmpl := schemes[r.Intn(2)] + "://" + tmplHosts[r.Intn(len(tmplHosts))] + tmplPaths[r.Intn(6)]
-		if i%6 == 5 {
-			tmpl = "https://bar.com/static" // both requests get the same Location
-		}
-		// the requests announce the other scheme than the template's, so that the redirect is not
-		// one back to the request itself (that one is skipped: the serve classes cover it)
+	// ---------- 4. 2-4 simultaneous requests, forced into a random interleaving ----------
+	// Every request runs ServeHTTP in its own goroutine; the Lookup function calls the real
+	// Table.Lookup and then blocks.  "ALookup i" = start request i and wait until its Lookup
+	// returned; "AServe i" = release request i and wait for its response.
+	for i := 0; i < run.Scale(60, 1500); i++ {
+		sc := schemes[r.Intn(2)]
 		other := "https"
-		if strings.HasPrefix(tmpl, "https") {
+		if sc == "https" {
 			other = "http"
 		}
-		qa, ok1 := mkReq("a.foo.com", "/from-A"+randWire(r, ""), "", other, false)
-		qb, ok2 := mkReq([]string{"a.foo.com", "b.foo.com"}[r.Intn(2)], "/from-B"+randWire(r, ""), queries[r.Intn(len(queries))], other, false)
-		if !ok1 || !ok2 {
-			run.Exclude("request line does not parse")
-			continue
+		// a table with mixed templates: a first host whose redirect points back at requests for
+		// it (skipped), a fallback with $path, sometimes an upstream
+		var lines []string
+		var descs []tdesc
+		add := func(src, tmpl, opts string) {
+			u, err := url.Parse(tmpl)
+			if err != nil {
+				return
+			}
+			id := len(descs)
+			if opts == "-" {
+				lines = append(lines, fmt.Sprintf("route add svc%d %s %s", id, src, tmpl))
+			} else {
+				lines = append(lines, fmt.Sprintf("route add svc%d %s %s opts \"redirect=%s\"", id, src, tmpl, opts))
+			}
+			descs = append(descs, tdesc{id: id, tmpl: tmpl, u: u})
 		}
-		tbl, err := route.NewTable(bytes.NewBufferString(`route add svc / ` + tmpl + ` opts "redirect=302"`))
+		selfScheme := []string{"http", "https"}[r.Intn(2)]
+		add("a.foo.com/", selfScheme+"://a.foo.com"+[]string{"$path", "/$path"}[r.Intn(2)], "301")
+		switch i % 6 {
+		case 5:
+			add("/", "https://bar.com/static", "302") // every request gets the same Location
+		default:
+			add("/", sc+"://"+tmplHosts[r.Intn(len(tmplHosts))]+tmplPaths[r.Intn(6)], []string{"302", "307"}[r.Intn(2)])
+		}
+		if r.Intn(3) == 0 {
+			add("/up", "http://10.0.0.9:80/", "-")
+		}
+		text := strings.Join(lines, "\n")
+		tbl, err := route.NewTable(bytes.NewBufferString(text))
 		if err != nil {
 			run.Exclude("route table rejected")
 			continue
 		}
-		u, _ := url.Parse(tmpl)
-		td := tdesc{id: 0, tmpl: tmpl, u: u, code: 302}
-		looked := make(chan string, 2)
-		release := map[string]chan struct{}{"A": make(chan struct{}), "B": make(chan struct{})}
+		idOf := map[*route.Target]int{}
+		for _, rts := range tbl {
+			for _, rt := range rts {
+				for _, t := range rt.Targets {
+					var id int
+					fmt.Sscanf(t.Service, "svc%d", &id)
+					descs[id].code = t.RedirectCode
+					idOf[t] = id
+				}
+			}
+		}
+		pick, match := route.Picker["rr"], route.Matcher["prefix"]
+		n := 2 + r.Intn(3)
+		var qs []rdesc
+		okAll := true
+		for k := 0; k < n; k++ {
+			xfp := []string{"", "http", "https", other}[r.Intn(4)]
+			pre := fmt.Sprintf("/from-%c", 'A'+k)
+			if r.Intn(5) == 0 {
+				pre = "/up" + pre
+			}
+			q, ok := mkReq([]string{"a.foo.com", "a.foo.com", "b.foo.com"}[r.Intn(3)], pre+randWire(r, ""), queries[r.Intn(len(queries))], xfp, false)
+			if !ok {
+				okAll = false
+				break
+			}
+			qs = append(qs, q)
+		}
+		if !okAll {
+			run.Exclude("request line does not parse")
+			continue
+		}
+		// a random interleaving in which every request is looked up once and served once afterwards
+		type act struct {
+			serve bool
+			r     int
+		}
+		var sched []act
+		pendingL := r.Perm(n)
+		var canServe []int
+		for len(pendingL)+len(canServe) > 0 {
+			if len(canServe) == 0 || (len(pendingL) > 0 && r.Intn(2) == 0) {
+				k := pendingL[0]
+				pendingL = pendingL[1:]
+				sched = append(sched, act{false, k})
+				canServe = append(canServe, k)
+			} else {
+				j := r.Intn(len(canServe))
+				k := canServe[j]
+				canServe = append(canServe[:j], canServe[j+1:]...)
+				sched = append(sched, act{true, k})
+			}
+		}
+		looked := make(chan int, n)
+		release := make([]chan struct{}, n)
+		done := make([]chan struct{}, n)
+		rec := make([]*httptest.ResponseRecorder, n)
+		for k := range release {
+			release[k], done[k], rec[k] = make(chan struct{}), make(chan struct{}), httptest.NewRecorder()
+		}
 		tr := &countingRT{}
 		p := &proxy.HTTPProxy{Config: config.Proxy{}, Transport: tr, Lookup: func(req *http.Request) *route.Target {
-			t := tbl.Lookup(req, "", route.Picker["rr"], route.Matcher["prefix"], gc, false)
-			who := req.Header.Get("X-Verif-Who")
+			t := tbl.Lookup(req, "", pick, match, gc, false)
+			who, _ := strconv.Atoi(req.Header.Get("X-Verif-Who"))
 			looked <- who
 			<-release[who]
 			return t
 		}}
-		rec := map[string]*httptest.ResponseRecorder{"A": httptest.NewRecorder(), "B": httptest.NewRecorder()}
-		done := map[string]chan struct{}{"A": make(chan struct{}), "B": make(chan struct{})}
-		start := func(who string, q rdesc) {
-			req := httpReq(q)
-			req.Header.Set("X-Verif-Who", who)
-			go func() {
-				defer close(done[who])
-				vh.Recover(func() { p.ServeHTTP(rec[who], req) })
-			}()
-		}
-		wait := func(c <-chan string) bool {
-			select {
-			case <-c:
-				return true
-			case <-time.After(10 * time.Second):
-				return false
+		var candsOf []string
+		for k := 0; k < n; k++ {
+			var cands []string
+			for _, c := range route.VerifC13Candidates(tbl, httpReq(qs[k]), pick, match, gc) {
+				if c == nil {
+					cands = append(cands, vh.None)
+				} else {
+					cands = append(cands, vh.Some(coqTarget(descs[idOf[c]])))
+				}
 			}
+			candsOf = append(candsOf, vh.List(cands))
 		}
-		start("A", qa)
-		okA := wait(looked) // Lookup A done
-		start("B", qb)
-		okB := wait(looked) // Lookup B done
-		close(release["A"])
-		<-done["A"]
-		close(release["B"])
-		<-done["B"]
-		if !okA || !okB {
-			run.Violation(run.NextID(), "forced schedule could not be established (Lookup did not return)", tmpl)
+		established := true
+		var coqSched, coqOut []string
+		var outs []interface{}
+		for _, a := range sched {
+			if !a.serve {
+				coqSched = append(coqSched, vh.App("ALookup", vh.Nat(a.r)))
+				req := httpReq(qs[a.r])
+				req.Header.Set("X-Verif-Who", strconv.Itoa(a.r))
+				k := a.r
+				go func() {
+					defer close(done[k])
+					vh.Recover(func() { p.ServeHTTP(rec[k], req) })
+				}()
+				select {
+				case <-looked:
+				case <-time.After(10 * time.Second):
+					established = false
+				}
+				continue
+			}
+			coqSched = append(coqSched, vh.App("AServe", vh.Nat(a.r)))
+			hitsBefore := tr.n
+			close(release[a.r])
+			<-done[a.r]
+			w := rec[a.r]
+			_, hasLoc := w.Header()["Location"]
+			up := -1
+			if tr.n > hitsBefore {
+				for _, d := range descs {
+					if d.u.Host == tr.hosts[len(tr.hosts)-1] {
+						up = d.id
+					}
+				}
+			}
+			resp, ok := coqResp(w.Code, w.Header().Get("Location"), hasLoc, tr.n-hitsBefore, up, false, nil)
+			if !ok {
+				run.Violation(run.NextID(), fmt.Sprintf("forced interleaving: a response is neither a redirect, nor proxied, nor 'no route' (status %d)", w.Code), text)
+				established = false
+				break
+			}
+			coqOut = append(coqOut, vh.Pair(vh.Nat(a.r), resp))
+			outs = append(outs, map[string]interface{}{"request": a.r, "status": w.Code, "location": w.Header().Get("Location")})
+		}
+		if !established {
+			run.Violation(run.NextID(), "forced interleaving could not be established (Lookup did not return)", text)
+			for k := range release { // let the goroutines go
+				select {
+				case <-release[k]:
+				default:
+					close(release[k])
+				}
+			}
 			continue
 		}
-		_, hasLocA := rec["A"].Header()["Location"]
-		_, hasLocB := rec["B"].Header()["Location"]
-		la, okA2 := coqResp(rec["A"].Code, rec["A"].Header().Get("Location"), hasLocA, 0, -1, false, nil)
-		lb, okB2 := coqResp(rec["B"].Code, rec["B"].Header().Get("Location"), hasLocB, 0, -1, false, nil)
-		if !okA2 || !okB2 {
-			run.Violation(run.NextID(), fmt.Sprintf("forced schedule: a response is neither a redirect nor 'no route' (status %d / %d)", rec["A"].Code, rec["B"].Code), tmpl)
-			continue
+		var coqReqs []string
+		var reqSample []string
+		for k := 0; k < n; k++ {
+			coqReqs = append(coqReqs, "("+coqReq(qs[k])+", "+vh.HxS(qs[k].wire)+", "+candsOf[k]+")")
+			reqSample = append(reqSample, qs[k].host+uri(qs[k].wire, qs[k].query)+" xfp="+qs[k].xfp)
 		}
-		if tr.n != 0 {
-			run.Violation(run.NextID(), "redirect route contacted the upstream under the forced schedule", tmpl)
+		var schedSample []string
+		for _, a := range sched {
+			schedSample = append(schedSample, fmt.Sprintf("%s %d", map[bool]string{false: "lookup", true: "serve"}[a.serve], a.r))
 		}
-		run.Add("forced-schedule-LA-LB-SA-SB", vh.App("CSched", coqTarget(td), coqReq(qa), coqReq(qb), la, lb),
-			map[string]interface{}{"template": tmpl, "A": qa.host + uri(qa.wire, qa.query), "B": qb.host + uri(qb.wire, qb.query),
-				"location_A": rec["A"].Header().Get("Location"), "location_B": rec["B"].Header().Get("Location")})
+		run.Add("forced-interleaving", vh.App("CSched", vh.List(coqReqs), vh.List(coqSched), vh.List(coqOut)),
+			map[string]interface{}{"routes": text, "requests": reqSample, "schedule": schedSample, "responses": outs})
 	}
 
 	run.Finish(preamble, (len(run.Cases)+15)/16+1)
